@@ -31,7 +31,7 @@ COMPONENTS = {"real": ["pyjelly serializers and parsers of both integrations, mo
 ASSUMPTIONS = ["pre-emption only at Python line boundaries inside pyjelly (not inside C calls of protobuf / io)",
                "hash-seed clause applied to explicit sequences only (rdflib containers iterate in hash order by design)",
                "the rdflib GraphStream-from-generator path regroups through a set (known finding)"]
-PROBES = ["namespace_workloads", "nested_steps", "coop_runs", "thread_runs", "subproc_runs", "shared_options", "neighbour_abandoned", "neighbour_failed",
+PROBES = ["guessed_options_workloads", "namespace_workloads", "nested_steps", "coop_runs", "thread_runs", "subproc_runs", "shared_options", "neighbour_abandoned", "neighbour_failed",
           "neighbour_unused", "thread_switches", "parse_workloads", "ser_workloads", "rdflib_workloads"]
 SHRINK_LISTS = ["workloads"]
 
@@ -62,8 +62,11 @@ def gen_workload(rng, allow_rdflib_graphs_gen=False):
         cfg["ns"] = True
         cfg["entry"] = "frames_sink"
         ops = [["ns", p, i] for p, i in nss] + ops
-    return {"kind": rng.choice(["ser", "ser", "parse"]), "cfg": cfg,
-            "ops": ops, "consumer": rng.choice(["flat", "grouped"])}
+    w = {"kind": rng.choice(["ser", "ser", "parse"]), "cfg": cfg,
+         "ops": ops, "consumer": rng.choice(["flat", "grouped"])}
+    if cfg["entry"] == "flat_frames" and rng.random() < 0.4:
+        w["guess"] = True        # default tables are large, so every statement fits
+    return w
 
 
 def generate(rng, run, tier):
@@ -115,7 +118,10 @@ def ser_steps(w, out: io.BytesIO, options=None, fail_at=None, sched=None):
             yield conv(st)
     if options is None:
         options = nodes.make_options(cfg)
-    if cfg["entry"] == "flat_frames":
+    if cfg["entry"] == "flat_frames" and w.get("guess"):
+        # no options at all: the integration guesses them (module-level defaults must not be shared state)
+        frames = m.flat_stream_to_frames(source())
+    elif cfg["entry"] == "flat_frames":
         frames = m.flat_stream_to_frames(source(), options)
     elif cfg["entry"] == "frames_sink":
         # ordered container with namespace bindings (generic sinks keep insertion order)
@@ -378,6 +384,9 @@ def execute(plan, sim):
     n_ns = sum(1 for w in plan["workloads"] if w["cfg"].get("ns"))
     if n_ns:
         sim.count("namespace_workloads", n_ns)
+    n_g = sum(1 for w in plan["workloads"] + plan.get("neighbours", []) if w.get("guess"))
+    if n_g:
+        sim.count("guessed_options_workloads", n_g)
     if plan["mode"] == "coop":
         return coop_side(plan, sim)
     if plan["mode"] == "threads":
